@@ -1499,4 +1499,6 @@ def gen_mt(rng, tier):
         for threads in ([2, 16] if quick else [2, 3, 8, 16]):
             iters = (150 if n <= 300 else 40) if quick else (2000 if n <= 300 else 200)
             ops.append(f"mt threads={hx(threads)} iters={hx(iters)} seed={hx(rng.getrandbits(40))} n={hx(n)}")
+    # large unsorted arrays through the adaptive analysis (its sampled estimate allocates scratch of input-dependent size)
+    ops.append(f"mt threads=4 iters={hx(3 if quick else 12)} seed={hx(rng.getrandbits(40))} n={hx(170000)} only=adaptive")
     return ops
